@@ -24,7 +24,7 @@ CLAIMS = {
           'model = formal semantics; crypto/hash/float/utf-8 primitives answered by an oracle backed by the real libraries; messages compared by exception class', '5/C06', 'Coq model + extraction; differential execution model vs implementation'),
  'C07': C('Theorems for all programs, limits, oracles and fuel: stack depth <= max_items and item size <= max_item_size in every final/raising state and after every action; tape bytes immutable, pointer monotone and within [0,len] per activation; reads in bounds.' + COMMON,
           'CPython recursion limit / allocator not modelled (D14 partial); call-depth/termination: see DESIGN', '5/C07', 'Coq invariant proofs by induction over programs and fuel + correspondence + per-instruction monitors'),
- 'C08': C('Theorem for all programs, nestings, oracles, configurations: every str-keyed cache entry except the control flag keeps the embedder value, in final and raising states, for run_script and run_auth_scripts. D13 ("returned" key) proved as a refutation witness.' + COMMON,
+ 'C08': C('Theorem for all programs, nestings, oracles, configurations: every str-keyed cache entry except the control flag keeps the embedder value, in final and raising states, for run_script and run_auth_scripts. D13 ("returned" key) proved as a refutation witness. Direct oracle: (type, repr) snapshot and directed aliasing probes over mutable embedder values.' + COMMON,
           'plugins/contracts modelled as recorders only (property is stated for none installed)', '5/C08', 'Coq relational invariant over the action vocabulary + correspondence'),
  'C09': C('Theorems: the configuration is one value read identically at any depth; sub-tapes run under the same configuration; signature extensions exactly once before GET_MESSAGE / CHECK_SIG; EVAL stays disallowed; flag instructions change nothing (D7 refuted form). Uniformity of the implementation over all nestings to depth 2/3 decided by the exhaustive correspondence stream.' + COMMON,
           'uniformity holds of the model by construction; the tie is the nesting-exhaustive correspondence', '5/C09', 'Coq theorems on the model + exhaustive nesting sweep'),
@@ -42,14 +42,14 @@ CLAIMS = {
           'htlc2 (key committed by hash) and ptlc tweak arithmetic not yet theorems (C17 algebra covers the tweak equation)', '5/C15', 'Coq symbolic execution incl. sub-tapes; correspondence'),
  'C16': C('Theorems: exact result of CHECK_TIMESTAMP / CHECK_EPOCH and _VERIFY forms for all inputs incl. error cases; verdict formula = documented window. Lock builders (after / between, plain and verify forms) exact on their real bytes; the before-lock theorem states exactly what it accepts (D11).' + COMMON,
           'clock = configuration value c_now (pinned in the harness)', '5/C16', 'Coq symbolic execution + lia; boundary-grid differential'),
- 'C17': C('Theorems over any commutative ring acting on an abelian group: adapter passes its check, decrypts to a valid signature, t recovered, exact sensitivity characterisations, private variant refuted (D15). Instructions and builders tied by correspondence with real Ed25519.' + COMMON,
-          'H-grp: scalars/points form a module (premises of the theorems); negative claims are iff-characterisations, not hardness', '5/C17', 'Coq algebra (ring) + correspondence with PyNaCl'),
+ 'C17': C('Theorems over any commutative ring acting on an abelian group: adapter passes its check, decrypts to a valid signature, t recovered, exact sensitivity characterisations, private variant refuted (D15). Instruction link (AdapterLink.v): for every oracle answering the ed25519 primitives according to the algebra, OP_MAKE_ADAPTER_SIG_PUBLIC/PRIVATE, OP_CHECK_ADAPTER_SIG, OP_DECRYPT_ADAPTER_SIG compute exactly the algebraic definitions (stack, cache writes, frame). Instructions and builders (with/without sigflags) tied by correspondence with real Ed25519.' + COMMON,
+          'H-grp: scalars/points form a module (premises of the theorems); negative claims are iff-characterisations, not hardness', '5/C17', 'Coq algebra (ring) + symbolic execution of the adapter instructions against the algebra + correspondence with PyNaCl'),
  'C18': C('Theorems (same algebra): tweak points are prefix sums, every view passes check_setup, final key opens the last lock, release cascade right to left yields exactly the decrypting scalar, wrong hop iff partial sums coincide. setup_amhl / release_left_amhl_lock by correspondence.' + COMMON,
           'H-grp premises', '5/C18', 'Coq induction over the chain + correspondence'),
  'C19': C('Theorems: registry state machine refines sets (active = added and not since removed/reset), invariants (NoDup), order, reset clears, run uses exactly the active entries, errors change nothing. Real module registries vs the model on random histories; history independence of compile/run and immutability of caller dictionaries by direct oracle.' + COMMON,
           'aliases: character validation of add_alias not modelled', '5/C19', 'Coq refinement proof + history differential'),
- 'C20': C('Theorems: every unassigned code dispatches to NOP; NOP exactly: signed count, negative -> error, count > depth -> IndexError, else removes count items and nothing else. All codes x counts x depths by correspondence; (de)compilation as NOPn.' + COMMON,
-          'soft-fork simulation: stated in DESIGN, partial', '5/C20', 'Coq symbolic execution + exhaustive code/count sweep'),
+ 'C20': C('Theorems: every unassigned code dispatches to NOP; NOP exactly: signed count, negative -> error, count > depth -> IndexError, else removes count items and nothing else. Soft-fork simulation (SoftFork.v): a VM in which one unassigned code keeps NOP\'s operand and pops and may additionally raise agrees with the old VM on every run in which that op never raised, so whatever it authorises then the old VM authorises too; a raise is never forgotten. All codes x counts x depths by correspondence; (de)compilation as NOPn; fork stream: tools.add_soft_fork installed in the implementation vs the extracted forked model, and the theorem checked on two real runs.' + COMMON,
+          'fork op restricted to the documented discipline (NOP operand/pops, then may only raise); premise is semantic (no raise recorded), not syntactic (no TRY)', '5/C20', 'Coq symbolic execution + simulation proof by induction over fuel and programs + exhaustive code/count sweep + fork differential stream'),
 }
 NA_REASON = 'builder-level theorem file still being proved in this revision; the correspondence stream exists (./check runs) but the property is not claimed yet'
 
